@@ -140,6 +140,27 @@ fn main() {
     let seed: u64 = std::env::var("VERIF_SEED").ok().and_then(|s| s.parse().ok()).unwrap_or(1);
     let threads: usize = std::env::var("VP_THREADS").ok().and_then(|s| s.parse().ok()).unwrap_or(16);
     std::panic::set_hook(Box::new(|_| {}));
+    if let Ok(spec) = std::env::var("VP_C18_REPLAY") {
+        // "<polarity 0|1>:<b1>,<b2>,..." -> judge exactly this predicate
+        let (pol, bs) = spec.split_once(':').expect("VP_C18_REPLAY");
+        let pol = pol == "1";
+        let b: Vec<u32> = bs.split(',').filter(|x| !x.is_empty()).map(|x| x.parse().unwrap()).collect();
+        BOUNDS.with(|x| *x.borrow_mut() = (b.clone(), pol));
+        let want = expected(&b, pol);
+        let got = catch_unwind(AssertUnwindSafe(|| gen::verif_generate(pred)));
+        let problem = match &got {
+            Err(_) => Some("generator panicked".to_string()),
+            Ok(g) => well_formed(g).or_else(|| if *g != want { Some(format!("output {} differs from the exact ranges {}", fmt_ranges(g), fmt_ranges(&want))) } else { None }),
+        };
+        match problem {
+            Some(p) => {
+                println!("{}", J::obj().with("t", J::s("V")).with("v", J::obj().with("property", J::s("C18")).with("what", J::s(&format!("generate_char_fn_ranges: {}", p)))).to_string());
+            }
+            None => {}
+        }
+        println!("{}", J::obj().with("t", J::s("S")).with("engine", J::s("tablegen_mon")).with("predicates", J::i(1)).with("nontrivial", J::i(1)).with("boundary_candidates", J::Arr(vec![])).with("samples", J::Arr(vec![])).to_string());
+        return;
+    }
     let mut rng = Rng::derive(seed, &[0xC18]);
     let mut cands: Vec<u32> = vec![0, 1, 0x7F, 0xD7FE, 0xD7FF, 0xD800, 0xE000, 0xE001, 0x10FFFE, 0x10FFFF];
     let n_rand = if tier == "quick" { 3 } else { 4 };
